@@ -431,7 +431,7 @@ theorem C01_kernel_create_view_planar (w h ms b2m a nch mem row i p0 t0 r0 w0 h0
 theorem C01_kernel_allocate_interleaved (w h ms b2m a nch m0 ar n0 t0 r0 w0 h0 row : Int) (hrow : row_size_in_memunits w ms b2m a = row)
     (hr : 0 ≤ row) (hr' : row < PZ) :
     allocate_interleaved w h ms b2m a nch m0 ar n0 t0 r0 w0 h0 =
-      if total_bytes_interleaved w h ms b2m a nch = 0 then (0, m0, t0, r0, w0, h0)
+      if total_bytes_interleaved w h ms b2m a nch = 0 then (0, m0, if a > 0 then align m0 a else m0, row, w, h)
       else (total_bytes_interleaved w h ms b2m a nch, ar, if a > 0 then align ar a else ar, row, w, h) := by
   unfold allocate_interleaved PZ at *
   simp (disch := omega) only [Int.emod_eq_of_lt, hrow]
@@ -440,7 +440,7 @@ theorem C01_kernel_allocate_interleaved (w h ms b2m a nch m0 ar n0 t0 r0 w0 h0 r
 theorem C01_kernel_allocate_planar (w h ms b2m a nch m0 ar n0 i p0 t0 r0 w0 h0 row : Int) (hrow : row_size_in_memunits w ms b2m a = row)
     (hr : 0 ≤ row) (hr' : row < PZ) (hh : 0 ≤ h) (hh' : h < PZ) (hi : 0 ≤ i) (hov : row * h * i < PZ) (hov' : row * h < PZ) :
     allocate_planar w h ms b2m a nch m0 ar n0 i p0 t0 r0 w0 h0 =
-      if total_bytes_planar w h ms b2m a nch = 0 then (0, m0, t0, p0, r0, w0, h0)
+      if total_bytes_planar w h ms b2m a nch = 0 then (0, m0, if a > 0 then align m0 a else m0, row * h * i, row, w, h)
       else (total_bytes_planar w h ms b2m a nch, ar, if a > 0 then align ar a else ar, row * h * i, row, w, h) := by
   unfold allocate_planar PZ at *
   have hrh : 0 ≤ row * h := Int.mul_nonneg hr hh
@@ -565,9 +565,10 @@ private theorem inBounds_of_empty (o : Org) (s : Img) (he : s.view.w = 0 ∧ s.v
 private theorem allocateK_eq (o : Org) (addr : Int → Int) (w h a k : Int) (hwf : o.WF)
     (hno : NoOvf o w h a (addr (allocBytes o w h a))) (hk0 : 0 ≤ k) (hk : k ≤ o.nch) :
     allocateK o addr w h a k =
-      if allocBytes o w h a = 0 then (⟨0, 0, 0, 0, 0, 0⟩, 0)
-      else (⟨allocBytes o w h a, addr (allocBytes o w h a), addr (allocBytes o w h a) + originOff (addr (allocBytes o w h a)) a, rowUnits o w a, w, h⟩,
-            if o.planar then k * (rowUnits o w a * h) else 0) := by
+      (⟨allocBytes o w h a, (if allocBytes o w h a = 0 then 0 else addr (allocBytes o w h a)),
+        (if allocBytes o w h a = 0 then 0 else addr (allocBytes o w h a)) + originOff (if allocBytes o w h a = 0 then 0 else addr (allocBytes o w h a)) a,
+        rowUnits o w a, w, h⟩,
+       if o.planar then k * (rowUnits o w a * h) else 0) := by
   obtain ⟨b0, b1, b2, b3, b4⟩ := row_bounds o w h a _ hwf hno
   obtain ⟨hw, hh, ha, hm, h1, h2, h3⟩ := hno
   unfold allocateK allocBytes at *
@@ -575,7 +576,8 @@ private theorem allocateK_eq (o : Org) (addr : Int → Int) (w h a k : Int) (hwf
   · simp only [hp, Bool.false_eq_true, if_false] at *
     simp only [C01_kernel_allocate_interleaved w h o.mstep o.b2m a o.nch 0 _ 0 0 0 0 0 (rowUnits o w a) rfl b0 b1]
     by_cases hz : total_bytes_interleaved w h o.mstep o.b2m a o.nch = 0
-    · simp [hz]
+    · simp only [hz, if_true, originOff]
+      split_ifs <;> simp
     · simp only [hz, if_false, originOff]
       split_ifs <;> simp
   · simp only [hp, if_true] at *
@@ -583,41 +585,48 @@ private theorem allocateK_eq (o : Org) (addr : Int → Int) (w h a k : Int) (hwf
     simp only [C01_kernel_allocate_planar w h o.mstep o.b2m a o.nch 0 _ 0 k 0 0 0 0 0 (rowUnits o w a) rfl b0 b1 hh b4 hk0
       (by have := h3 trivial; unfold PZ at *; omega) b3]
     by_cases hz : total_bytes_planar w h o.mstep o.b2m a o.nch = 0
-    · simp [hz]
+    · simp only [hz, if_true, originOff]
+      split_ifs <;> simp <;> ring
     · simp only [hz, if_false, originOff]
       split_ifs <;> simp <;> ring
 
-/-- **`allocate_`** (constructors): requests `total_allocated_size_in_bytes` bytes; for a non-zero
-    request the view is `imageView` over the allocator's block (first pixel at `align(_memory, a)`,
-    planes `row * h` apart); for a zero request nothing is allocated and the view stays 0 x 0.
-    Either way every pixel of every derived view lies inside the block. -/
+/-- **`allocate_`** (constructors): requests `total_allocated_size_in_bytes` bytes; the view is `imageView` -- the REQUESTED
+    dimensions, first pixel at `align(_memory, a)`, planes `row * h` apart -- over the allocator's block, or, when 0 bytes are
+    needed (a degenerate `w x 0` / `0 x h` image; since 42a1d3b), over the null `_memory` without allocating.
+    Either way every pixel of every derived view lies inside the block (a degenerate image has no in-range pixel). -/
 theorem C01_allocate (o : Org) (addr : Int → Int) (w h a : Int) (hwf : o.WF)
     (hno : NoOvf o w h a (addr (allocBytes o w h a))) :
     (allocate o addr w h a).allocated = allocBytes o w h a ∧ (allocate o addr w h a).a = a
     ∧ (allocBytes o w h a ≠ 0 → (allocate o addr w h a).mem = addr (allocBytes o w h a)
           ∧ (allocate o addr w h a).view = imageView o w h a (addr (allocBytes o w h a)))
-    ∧ (allocBytes o w h a = 0 → (allocate o addr w h a).mem = 0 ∧ (allocate o addr w h a).view.w = 0 ∧ (allocate o addr w h a).view.h = 0)
+    ∧ (allocBytes o w h a = 0 → (allocate o addr w h a).mem = 0 ∧ (allocate o addr w h a).view = imageView o w h a 0)
     ∧ 0 ≤ (allocate o addr w h a).mem
     ∧ (allocate o addr w h a).InBounds o := by
   have e0 := allocateK_eq o addr w h a 0 hwf hno (by omega) hwf.2.1
-  by_cases hz : allocBytes o w h a = 0
-  · simp only [hz, if_true] at e0
-    have hv : (allocate o addr w h a).view.w = 0 ∧ (allocate o addr w h a).view.h = 0 := by simp [allocate, e0, Placed.view]
-    refine ⟨by simp [allocate, e0, hz], rfl, fun h => absurd hz h, fun _ => ⟨by simp [allocate, e0], hv⟩, by simp [allocate, e0], inBounds_of_empty o _ hv⟩
-  · simp only [hz, if_false] at e0
-    have hmem : (allocate o addr w h a).mem = addr (allocBytes o w h a) := by simp [allocate, e0]
-    have hview : (allocate o addr w h a).view = imageView o w h a (addr (allocBytes o w h a)) := by
-      simp [allocate, e0, Placed.view, imageView]
-    refine ⟨by simp [allocate, e0], rfl, fun _ => ⟨hmem, hview⟩, fun h => absurd h hz, by rw [hmem]; exact hno.2.2.2.1, ?_⟩
-    apply inBounds_of_imageView o _ w h hwf
-    · rw [hmem]; exact hno
-    · rw [hmem]; exact hview
+  have hmem : (allocate o addr w h a).mem = if allocBytes o w h a = 0 then 0 else addr (allocBytes o w h a) := by simp [allocate, e0]
+  have hview : (allocate o addr w h a).view = imageView o w h a (allocate o addr w h a).mem := by
+    rw [hmem]; simp [allocate, e0, Placed.view, imageView]
+  have hm0 : 0 ≤ (allocate o addr w h a).mem := by
+    rw [hmem]; split_ifs
+    · omega
+    · exact hno.2.2.2.1
+  have hno' : NoOvf o w h a (allocate o addr w h a).mem := by
+    rw [hmem]; split_ifs
+    · obtain ⟨n1, n2, n3, n4, n5, n6, n7⟩ := hno
+      exact ⟨n1, n2, n3, by omega, by omega, n6, n7⟩
+    · exact hno
+  refine ⟨by simp [allocate, e0], rfl, fun hz => ?_, fun hz => ?_, hm0, ?_⟩
+  · rw [hmem, if_neg hz] at hview; exact ⟨by rw [hmem, if_neg hz], hview⟩
+  · rw [hmem, if_pos hz] at hview; exact ⟨by rw [hmem, if_pos hz], hview⟩
+  · apply inBounds_of_imageView o _ w h hwf hno' hview
     · intro hp k hk0 hk
       have ek := allocateK_eq o addr w h a k hwf hno hk0 hk
-      simp only [hz, if_false] at ek
       simp [allocate, ek, hp]
     · simp [allocate, e0]
 
+/-- a degenerate rgb8 5x0 image: nothing is allocated, the view still is 5 x 0 (rows 15 bytes) over the null storage -/
+example : (allocate ⟨1, 3, false, 3, [], 0⟩ (fun _ => 1001) 5 0 0).allocated = 0 ∧ (allocate ⟨1, 3, false, 3, [], 0⟩ (fun _ => 1001) 5 0 0).mem = 0
+    ∧ (allocate ⟨1, 3, false, 3, [], 0⟩ (fun _ => 1001) 5 0 0).view = ⟨0, 3, 15, 5, 0⟩ := by decide
 
 /-- which branch `recreate` takes (every overload, both image kinds): nothing to do when the
     dimensions, the alignment and (if one is passed) the allocator are the current ones; otherwise the
